@@ -108,6 +108,16 @@ Definition good (k : conn) : Prop :=
 
 Definition flips (k k' : conn) : bool := negb (c_latch k) && c_latch k'.
 
+(* chSend is a bounded queue and c_nq is its length *)
+Definition qok (k : conn) : Prop :=
+  c_nq k = Z.of_nat (length (c_sendq k)) /\ c_nq k <= chcap.
+
+Lemma deq_length l x r : deq l = Some (x, r) -> length l = S (length r).
+Proof.
+  unfold deq. intro H. destruct (rev l) as [|y t] eqn:E; [discriminate|]. inv H.
+  rewrite <- (rev_length l), E, rev_length. reflexivity.
+Qed.
+
 (* what one step may do to one connection, with the events it posts *)
 Record kupd (k k' : conn) (new : list kev) : Prop := mkKupd {
   ku_latch : c_latch k = true -> c_latch k' = true;
@@ -116,7 +126,8 @@ Record kupd (k k' : conn) (new : list kev) : Prop := mkKupd {
   ku_ncb : c_ncb k' = c_ncb k + (if flips k k' then 1 else 0);
   ku_good : good k -> good k';
   ku_order : exists a, c_arrived k' = c_arrived k ++ a /\
-                       subseq (kmsgs new ++ pend k') (pend k ++ a)
+                       subseq (kmsgs new ++ pend k') (pend k ++ a);
+  ku_q : qok k -> qok k'
 }.
 
 Lemma kupd_refl k : kupd k k [].
@@ -127,11 +138,15 @@ Proof.
   - exists []. rewrite !app_nil_r. split; [reflexivity | apply subseq_refl].
 Qed.
 
+(* the fields of the acceptor pipeline, the gate and the service's pending targets *)
+Definition accf (s : st) := (backlog s, ahand s, cch s, shand s, gate s, dialed s, own s).
+
 (* one connection changes, events are appended, nothing else moves *)
 Definition conn_eff (s s' : st) (c : Z) (k k' : conn) (new : list kev) : Prop :=
   aget c (conns s) = Some k /\
   (forall c', aget c' (conns s') = if Z.eqb c' c then Some k' else aget c' (conns s)) /\
   q s' = q s ++ map (toev c) new /\ dn s' = dn s /\ fr s' = fr s /\ now s' = now s /\
+  accf s' = accf s /\
   kupd k k' new.
 
 Lemma eff_set s c k k' :
@@ -190,6 +205,14 @@ Ltac ku_order_tac :=
   repeat match goal with H : _ = _ |- _ => rewrite H end; simpl;
   auto using subseq_refl, subseq_skip.
 
+Ltac ku_q_tac :=
+  unfold qok, chcap; simpl;
+  let Q1 := fresh "Q1" in let Q2 := fresh "Q2" in
+  intros (Q1 & Q2);
+  repeat match goal with H : deq _ = Some _ |- _ => apply deq_length in H end;
+  repeat match goal with H : (_ <? _) = true |- _ => apply Z.ltb_lt in H end;
+  unfold chcap in *; split; lia.
+
 Ltac ku_tac :=
   constructor;
   [ simpl; auto
@@ -203,7 +226,8 @@ Ltac ku_tac :=
     repeat match goal with H : c_latch _ = _ |- _ => rewrite H end;
     match goal with |- context [c_latch ?k] => destruct (c_latch k); simpl; lia | _ => simpl; lia end
   | ku_good_tac
-  | ku_order_tac ].
+  | ku_order_tac
+  | ku_q_tac ].
 
 Lemma step_R_eff s c k :
   aget c (conns s) = Some k ->
@@ -249,10 +273,14 @@ Proof.
   destruct (c_wp k) eqn:Hwp.
   - destruct (c_latch k) eqn:L.
     { right. eexists _, []. apply eff_set; [exact H | ku_tac]. }
-    destruct (c_sendq k) as [|x r] eqn:Hq; [left; reflexivity|].
-    right. destruct (c_wfail k) eqn:F.
-    + eexists _, []. apply eff_set; [exact H | ku_tac].
-    + destruct x; eexists _, []; (apply eff_set; [exact H | ku_tac]).
+    destruct (deq (c_sendq k)) as [[x r]|] eqn:Hq; [|left; reflexivity].
+    right. eexists _, []. apply eff_set; [exact H | ku_tac].
+  - destruct (c_latch k) eqn:L.
+    { right. eexists _, []. apply eff_set; [exact H | ku_tac]. }
+    destruct (c_wfail k) eqn:F.
+    { right. eexists _, []. apply eff_set; [exact H | ku_tac]. }
+    destruct (c_wstall k) eqn:St; [left; reflexivity|].
+    right. destruct x; eexists _, []; (apply eff_set; [exact H | ku_tac]).
   - right. apply (eff_close_then (k_wp WDone) s c k H); intro L; ku_tac.
   - left. reflexivity.
 Qed.
@@ -268,8 +296,36 @@ Proof.
     destruct (c_status k) eqn:St; try (left; reflexivity).
     right. destruct (now s <? c_lasthb k + hb_limit) eqn:T;
       eexists _, []; (apply eff_set; [exact H | ku_tac]).
+  - destruct (c_latch k) eqn:L.
+    { right. eexists _, []. apply eff_set; [exact H | ku_tac]. }
+    destruct (c_nq k <? chcap) eqn:Sp; [|left; reflexivity].
+    right. eexists _, []. apply eff_set; [exact H | ku_tac].
   - right. apply (eff_close_then (k_hp HLoop) s c k H); intro L; ku_tac.
   - left. reflexivity.
+Qed.
+
+(* ClientSession.Push, when it does not park the caller, only touches the queue and a counter *)
+Lemma push_k_kupd k k' : push_k k = Some k' -> kupd k k' [].
+Proof.
+  unfold push_k. intro E.
+  destruct (c_status k) eqn:St; try destruct (c_latch k) eqn:L; try destruct (c_nq k <? chcap) eqn:Sp;
+    inv E; ku_tac.
+Qed.
+
+Lemma push_k_pp k k' x : push_k k = Some k' -> kupd k (k_pp x k') [].
+Proof.
+  unfold push_k. intro E.
+  destruct (c_status k) eqn:St; try destruct (c_latch k) eqn:L; try destruct (c_nq k <? chcap) eqn:Sp;
+    inv E; ku_tac.
+Qed.
+
+Lemma step_P_eff s c k :
+  aget c (conns s) = Some k ->
+  step_P c k s = s \/ exists k' new, conn_eff s (step_P c k s) c k k' new.
+Proof.
+  intro H. unfold step_P. destruct (0 <? c_pp k); [|left; reflexivity].
+  destruct (push_k k) as [k'|] eqn:E; [|left; reflexivity].
+  right. eexists _, []. apply eff_set; [exact H | eapply push_k_pp; exact E].
 Qed.
 
 (* Close() by someone who is not one of the three loops *)
@@ -340,6 +396,7 @@ Proof.
     exists (a1 ++ a2). split; [rewrite E2, E1, app_assoc; reflexivity|].
     simpl in *. eapply subseq_trans; [exact S2|].
     rewrite app_assoc. apply subseq_app; [exact S1 | apply subseq_refl].
+  - intro G. apply (ku_q _ _ _ U2). apply (ku_q _ _ _ U1). exact G.
 Qed.
 
 Lemma quiet_trans s s1 s2 : quiet_step s s1 -> quiet_step s1 s2 -> quiet_step s s2.
@@ -355,7 +412,7 @@ Qed.
 
 Lemma conn_eff_local s s' c k k' new : conn_eff s s' c k k' new -> local_step s s'.
 Proof.
-  intros (H & C & Q & D & F & _ & U). split; [exact D|]. split; [exact F|].
+  intros (H & C & Q & D & F & _ & _ & U). split; [exact D|]. split; [exact F|].
   exists c, new. split; [exact Q|]. split; [right; exists k; exact H|]. intro c'. rewrite C.
   destruct (Z.eqb_spec c' c) as [E|N].
   - subst. rewrite H. exists k'. split; [reflexivity | exact U].
@@ -365,7 +422,7 @@ Qed.
 
 Lemma conn_eff_quiet s s' c k k' : conn_eff s s' c k k' [] -> quiet_step s s'.
 Proof.
-  intros (H & C & Q & D & F & _ & U). simpl in Q. rewrite app_nil_r in Q.
+  intros (H & C & Q & D & F & _ & _ & U). simpl in Q. rewrite app_nil_r in Q.
   split; [exact D|]. split; [exact F|]. split; [exact Q|].
   intro c'. rewrite C. destruct (Z.eqb_spec c' c) as [E|N].
   - subst. rewrite H. exists k'. split; [reflexivity | exact U].
@@ -384,25 +441,19 @@ Qed.
 Lemma local_refl s : local_step s s.
 Proof. apply quiet_local, quiet_refl. Qed.
 
-Lemma push_conn_quiet s c : quiet_step s (push_conn c s).
+(* one step of the owning service inside PushMsg: one connection's queue and counter, and [own] *)
+Lemma owner_quiet s : quiet_step s (step_owner s).
 Proof.
-  unfold push_conn. destruct (aget c (conns s)) as [k|] eqn:H; [|apply quiet_refl].
-  destruct (c_status k) eqn:St; try destruct (c_latch k) eqn:L;
-    (eapply conn_eff_quiet; apply eff_set; [exact H | ku_tac]).
+  unfold step_owner. destruct (own s) as [|c rest]; [apply quiet_refl|].
+  assert (Q0 : forall x, quiet_step s (s_own x s)).
+  { intro x. repeat split. intro c'. simpl. destruct (aget c' (conns s)) as [k|]; [|reflexivity].
+    exists k. split; [reflexivity | apply kupd_refl]. }
+  destruct (target_of s c) as [c'|]; [|apply Q0].
+  destruct (aget c' (conns s)) as [k|] eqn:H; [|apply Q0].
+  destruct (push_k k) as [k'|] eqn:E; [|apply quiet_refl].
+  pose proof (conn_eff_quiet s (set_conn c' k' s) c' k k' (eff_set s c' k k' H (push_k_kupd k k' E))) as (D & F & Q & C).
+  repeat split; try assumption.
 Qed.
-
-Lemma push_one_quiet s c : quiet_step s (push_one s c).
-Proof.
-  unfold push_one. destruct (aget c (f_netid (fr s))) as [id|]; [|apply quiet_refl].
-  destruct (aget id (f_live (fr s))) as [c'|]; [apply push_conn_quiet | apply quiet_refl].
-Qed.
-
-Lemma push_all_quiet cs : forall s, quiet_step s (fold_left push_one cs s).
-Proof.
-  induction cs as [|c cs IH]; intro s; simpl; [apply quiet_refl|].
-  eapply quiet_trans; [apply push_one_quiet | apply IH].
-Qed.
-
 
 Lemma good_eof k :
   good k ->
@@ -432,7 +483,7 @@ Proof.
      [ simpl; auto | left; reflexivity
      | unfold flips; simpl; split; [discriminate | destruct (c_latch k); discriminate]
      | unfold flips; simpl; destruct (c_latch k); simpl; lia
-     | | ]);
+     | | | unfold qok; simpl; auto ]);
     try (apply (O []); simpl; rewrite ?app_nil_r; reflexivity);
     try (apply (O [m]); reflexivity);
     try (unfold good; simpl; tauto).
@@ -440,54 +491,94 @@ Proof.
   repeat split; auto.
 Qed.
 
+(* nothing the invariants look at changes *)
+Definition silent_step (s s' : st) : Prop :=
+  conns s' = conns s /\ q s' = q s /\ dn s' = dn s /\ fr s' = fr s.
+
+(* a new connection: NewClientSession posts the Add and starts the loops *)
+Definition connect_step (s s' : st) (c : Z) : Prop :=
+  aget c (conns s) = None /\
+  (forall c', aget c' (conns s') = if Z.eqb c' c then Some conn0 else aget c' (conns s)) /\
+  q s' = q s ++ [EAdd c] /\ dn s' = dn s /\ fr s' = fr s.
+
 Inductive step_kind (s : st) (l : label) : Prop :=
 | sk_local : local_step s (step s l) -> step_kind s l
-| sk_connect c : l = LConnect c -> aget c (conns s) = None -> step_kind s l
-| sk_front e r : l = LFront -> q s = e :: r -> step_kind s l
-| sk_setnext v : l = LSetNext v -> step_kind s l.
+| sk_silent : silent_step s (step s l) -> step_kind s l
+| sk_connect c : l = LConnect c \/ l = LStepS -> connect_step s (step s l) c -> step_kind s l
+| sk_front e r : l = LFront -> own s = [] -> q s = e :: r -> step_kind s l
+| sk_setnext v : l = LSetNext v -> own s = [] -> step_kind s l.
+
+Lemma connect_cases s c :
+  connect c s = s \/ connect_step s (connect c s) c.
+Proof.
+  unfold connect. destruct (aget c (conns s)) eqn:H; [left; reflexivity|].
+  right. unfold connect_step, post, set_conn; simpl.
+  split; [exact H|]. split; [intro c'; apply aget_aset|]. repeat split.
+Qed.
 
 Lemma step_class s l : step_kind s l.
 Proof.
-  destruct l as [c|c p|c|c|d|c t|c|c|cs| |v].
-  - (* LConnect *) destruct (aget c (conns s)) eqn:H.
-    + apply sk_local. simpl. rewrite H. apply local_refl.
-    + eapply sk_connect; [reflexivity | exact H].
+  destruct l as [c|b| | |c|c p|c|c|c|d|c t|c n|c|c|cs| | |v].
+  - (* LDial *) apply sk_silent. simpl. destruct (known s c); repeat split.
+  - (* LGate *) apply sk_silent. repeat split.
+  - (* LStepA *) apply sk_silent. simpl.
+    destruct (ahand s) as [c|]; [destruct (length (cch s) <? cchcap)%nat | destruct (backlog s)]; repeat split.
+  - (* LStepS *) destruct (shand s) as [c|] eqn:Sh.
+    + destruct (gate s) eqn:G.
+      { apply sk_silent. unfold silent_step. simpl. rewrite Sh, G. repeat split. }
+      destruct (connect_cases s c) as [E|(H & C & Q & D & F)].
+      * apply sk_silent. unfold silent_step. simpl. rewrite Sh, G, E. repeat split.
+      * apply (sk_connect s LStepS c); [right; reflexivity|]. unfold connect_step. simpl. rewrite Sh, G. simpl.
+        split; [exact H|]. split; [exact C|]. repeat split; assumption.
+    + apply sk_silent. unfold silent_step. simpl. rewrite Sh. destruct (cch s); repeat split.
+  - (* LConnect *) destruct (zmem c (dialed s)) eqn:Dl.
+    { apply sk_local. simpl. rewrite Dl. apply local_refl. }
+    destruct (connect_cases s c) as [E|C].
+    + apply sk_local. simpl. rewrite Dl, E. apply local_refl.
+    + apply (sk_connect s (LConnect c) c); [left; reflexivity|]. simpl. rewrite Dl. exact C.
   - (* LSend *) apply sk_local. simpl. destruct (aget c (conns s)) as [k|] eqn:H; [|apply local_refl].
     destruct (c_eof k) eqn:E; [apply local_refl|].
     eapply conn_eff_local. apply eff_set; [exact H|].
     apply kupd_send.
   - (* LEof *) apply sk_local. simpl. destruct (aget c (conns s)) as [k|] eqn:H; [|apply local_refl].
-    eapply conn_eff_local. apply eff_set; [exact H|]. 
+    eapply conn_eff_local. apply eff_set; [exact H|].
     constructor; [simpl; auto | left; reflexivity
                  | unfold flips; simpl; split; [discriminate | destruct (c_latch k); discriminate]
                  | unfold flips; simpl; destruct (c_latch k); simpl; lia
-                 | | ku_order_tac].
+                 | | ku_order_tac | unfold qok; simpl; auto].
     unfold good; simpl. intros G. pose proof (good_eof k G) as E. destruct G as (G1 & G2 & G3 & G4).
     repeat split; auto.
   - (* LWfail *) apply sk_local. simpl. destruct (aget c (conns s)) as [k|] eqn:H; [|apply local_refl].
     eapply conn_eff_local. apply eff_set; [exact H | ku_tac].
-  - (* LTick *) apply sk_local. simpl. split; [reflexivity|]. split; [reflexivity|].
-    exists 0, []. simpl. rewrite app_nil_r. split; [reflexivity|]. split; [left; reflexivity|].
-    intro c'. destruct (aget c' (conns s)) as [k|]; [|reflexivity].
-    exists k. split; [reflexivity|]. destruct (Z.eqb c' 0); apply kupd_refl.
+  - (* LWstall *) apply sk_local. simpl. destruct (aget c (conns s)) as [k|] eqn:H; [|apply local_refl].
+    eapply conn_eff_local. apply eff_set; [exact H | ku_tac].
+  - (* LTick *) apply sk_silent. repeat split.
   - (* LStep *) apply sk_local. simpl. destruct (aget c (conns s)) as [k|] eqn:H; [|apply local_refl].
     destruct t.
     + destruct (step_R_eff s c k H) as [E|(k' & new & E)]; [rewrite E; apply local_refl | eapply conn_eff_local; exact E].
     + destruct (step_W_eff s c k H) as [E|(k' & new & E)]; [rewrite E; apply local_refl | eapply conn_eff_local; exact E].
     + destruct (step_H_eff s c k H) as [E|(k' & new & E)]; [rewrite E; apply local_refl | eapply conn_eff_local; exact E].
-  - (* LKick *) apply sk_local. simpl.
-    destruct (aget c (f_netid (fr s))) as [id|]; [|apply local_refl].
-    destruct (aget id (f_live (fr s))) as [c'|]; [|apply local_refl].
+    + destruct (step_P_eff s c k H) as [E|(k' & new & E)]; [rewrite E; apply local_refl | eapply conn_eff_local; exact E].
+  - (* LFlood *) apply sk_local. simpl. destruct (aget c (conns s)) as [k|] eqn:H; [|apply local_refl].
+    destruct (c_pp k =? 0); [|apply local_refl].
+    eapply conn_eff_local. apply eff_set; [exact H | ku_tac].
+  - (* LKick *) apply sk_local. simpl. destruct (own s); [|apply local_refl].
+    destruct (target_of s c) as [c'|]; [|apply local_refl].
     destruct (aget c' (conns s)) as [k'|] eqn:H; [|apply local_refl].
     destruct (eff_ext_close s c' k' H) as (k2 & new & E). eapply conn_eff_local. exact E.
   - (* LCloseExt *) apply sk_local. simpl.
     destruct (aget c (conns s)) as [k|] eqn:H; [|apply local_refl].
     destruct (eff_ext_close s c k H) as (k2 & new & E). eapply conn_eff_local. exact E.
-  - (* LPush *) apply sk_local. simpl. apply quiet_local. apply push_all_quiet.
-  - (* LFront *) destruct (q s) as [|e r] eqn:Q.
-    + apply sk_local. simpl. rewrite Q. apply local_refl.
-    + eapply sk_front; [reflexivity | exact Q].
-  - eapply sk_setnext. reflexivity.
+  - (* LPush *) apply sk_silent. simpl. destruct (own s); repeat split.
+  - (* LOwner *) apply sk_local. simpl. apply quiet_local. apply owner_quiet.
+  - (* LFront *) destruct (own s) as [|c0 rest] eqn:O.
+    + destruct (q s) as [|e r] eqn:Q.
+      * apply sk_local. simpl. rewrite O, Q. apply local_refl.
+      * eapply sk_front; [reflexivity | exact O | exact Q].
+    + apply sk_local. simpl. rewrite O. apply local_refl.
+  - (* LSetNext *) destruct (own s) as [|c0 rest] eqn:O.
+    + eapply sk_setnext; [reflexivity | exact O].
+    + apply sk_local. simpl. rewrite O. apply local_refl.
 Qed.
 
 (* ------------------------------------------------------------------ 3. invariants *)
@@ -631,14 +722,11 @@ Proof.
   destruct e as [c'|c' m|c']; simpl; destruct (Z.eqb c c'); simpl; try discriminate; auto.
 Qed.
 
-Lemma cinv_connect s c : CInv s -> aget c (conns s) = None -> CInv (post (EAdd c) (set_conn c conn0 s)).
+Lemma cinv_connect s s' c : CInv s -> connect_step s s' c -> CInv s'.
 Proof.
-  intros I H.
-  assert (PE : posted (post (EAdd c) (set_conn c conn0 s)) = posted s ++ [EAdd c]).
-  { unfold posted, post, set_conn; simpl. rewrite app_assoc. reflexivity. }
-  assert (CG : forall c', aget c' (conns (post (EAdd c) (set_conn c conn0 s))) =
-                          if Z.eqb c' c then Some conn0 else aget c' (conns s)).
-  { intro c'. unfold post, set_conn; simpl. apply aget_aset. }
+  intros I (H & CG & Q & D & F).
+  assert (PE : posted s' = posted s ++ [EAdd c]).
+  { unfold posted. rewrite D, Q, app_assoc. reflexivity. }
   constructor.
   - intro c'. rewrite PE, count_remove_app. unfold latch_of, ncb_of, conn_of. rewrite CG.
     destruct (iA s I c') as (A1 & A2). unfold latch_of, ncb_of, conn_of in *.
@@ -681,12 +769,13 @@ Qed.
 
 Lemma cinv_step s l : CInv s -> CInv (step s l).
 Proof.
-  intro I. destruct (step_class s l) as [L|c E H|e r E Q|v E].
+  intro I. destruct (step_class s l) as [L|(C & Q & D & F)|c _ C|e r E O Q|v E O].
   - eapply cinv_local; eassumption.
-  - subst. simpl. rewrite H. apply cinv_connect; assumption.
-  - subst. simpl. rewrite Q. apply (cinv_same s); [exact I | reflexivity|].
+  - apply (cinv_same s); [exact I | exact C | unfold posted; rewrite D, Q; reflexivity].
+  - eapply cinv_connect; eassumption.
+  - subst. simpl. rewrite O, Q. apply (cinv_same s); [exact I | reflexivity|].
     unfold posted; simpl. rewrite Q, <- app_assoc. reflexivity.
-  - subst. simpl. apply (cinv_same s); [exact I | reflexivity | reflexivity].
+  - subst. simpl. rewrite O. apply (cinv_same s); [exact I | reflexivity | reflexivity].
 Qed.
 
 Lemma cinv_run tr : forall s, CInv s -> CInv (run_from s tr).
@@ -959,13 +1048,15 @@ Qed.
 
 Lemma dinv_step s l : CInv s -> DInv s -> DInv (step s l).
 Proof.
-  intros I D. destruct (step_class s l) as [(D1 & F1 & _)|c E H|e r E Q|v E]; unfold DInv in *.
+  intros I D. destruct (step_class s l) as [(D1 & F1 & _)|(_ & _ & D1 & F1)|c _ (_ & _ & _ & D1 & F1)|e r E O Q|v E O];
+    unfold DInv in *.
   - rewrite D1, F1. exact D.
-  - subst. simpl. rewrite H. simpl. exact D.
-  - subst. simpl. rewrite Q. simpl. intro NR.
+  - rewrite D1, F1. exact D.
+  - rewrite D1, F1. exact D.
+  - subst. simpl. rewrite O, Q. simpl. intro NR.
     apply finv_event; [apply D; eapply reused_mono; exact NR | | exact NR].
     intros c Ee. subst e. eapply add_not_consumed; eassumption.
-  - subst. simpl. intro NR. apply finv_next. apply D. exact NR.
+  - subst. simpl. rewrite O. simpl. intro NR. apply finv_next. apply D. exact NR.
 Qed.
 
 Lemma inv_run tr : forall s, CInv s -> DInv s -> CInv (run_from s tr) /\ DInv (run_from s tr).
@@ -1075,7 +1166,20 @@ Lemma single_latch_step s l c :
     (latch_of s c = true -> latch_of (step s l) c = true).
 Proof.
   unfold flipped, latch_of, ncb_of, conn_of.
-  destruct (step_class s l) as [(D & F & c0 & new & Q & P & C)|c0 E H|e r E Q|v E].
+  assert (SAME : forall s', conns s' = conns s -> posted s' = posted s ->
+    exists new, posted s' = posted s ++ new /\
+      count_remove c new = (if negb match aget c (conns s) with Some k => c_latch k | None => false end
+                               && match aget c (conns s') with Some k => c_latch k | None => false end then 1 else 0)%nat /\
+      match aget c (conns s') with Some k => c_ncb k | None => 0 end =
+      match aget c (conns s) with Some k => c_ncb k | None => 0 end +
+      (if negb match aget c (conns s) with Some k => c_latch k | None => false end
+          && match aget c (conns s') with Some k => c_latch k | None => false end then 1 else 0) /\
+      (match aget c (conns s) with Some k => c_latch k | None => false end = true ->
+       match aget c (conns s') with Some k => c_latch k | None => false end = true)).
+  { intros s' C P. exists []. rewrite C, P, app_nil_r. split; [reflexivity|].
+    destruct (aget c (conns s)) as [k|]; simpl;
+      [destruct (c_latch k); simpl|]; (split; [reflexivity|]); (split; [lia | auto]). }
+  destruct (step_class s l) as [(D & F & c0 & new & Q & P & C)|(C & Q & D & F)|c0 _ (H & C & Q & D & F)|e r E O Q|v E O].
   - exists (map (toev c0) new). split; [apply posted_local; assumption|].
     specialize (C c). destruct (aget c (conns s)) as [k|] eqn:H.
     + destruct C as (k' & H' & U). rewrite H'. fold (flips k k').
@@ -1090,20 +1194,17 @@ Proof.
         split; [reflexivity|]. split; [lia | auto].
       * destruct (evs_toev_other c c0 new N) as (_ & _ & R). rewrite R.
         split; [reflexivity|]. split; [lia | auto].
-  - subst. simpl. rewrite H. exists [EAdd c0].
-    split; [unfold posted, post, set_conn; simpl; rewrite app_assoc; reflexivity|].
-    unfold post, set_conn; simpl. rewrite aget_aset.
+  - apply SAME; [exact C | unfold posted; rewrite D, Q; reflexivity].
+  - exists [EAdd c0].
+    split; [unfold posted; rewrite D, Q, app_assoc; reflexivity|].
+    rewrite C.
     destruct (Z.eqb_spec c c0) as [E|N].
     + subst. rewrite H. simpl. split; [reflexivity|]. split; [reflexivity | auto].
     + destruct (aget c (conns s)) as [k|]; simpl;
         [destruct (c_latch k); simpl|]; (split; [reflexivity|]); (split; [lia | auto]).
-  - subst. simpl. rewrite Q. exists []. simpl.
-    split; [unfold posted; simpl; rewrite Q, app_nil_r, <- app_assoc; reflexivity|].
-    destruct (aget c (conns s)) as [k|]; simpl;
-      [destruct (c_latch k); simpl|]; (split; [reflexivity|]); (split; [lia | auto]).
-  - subst. simpl. exists []. split; [unfold posted; simpl; rewrite app_nil_r; reflexivity|].
-    destruct (aget c (conns s)) as [k|]; simpl;
-      [destruct (c_latch k); simpl|]; (split; [reflexivity|]); (split; [lia | auto]).
+  - subst. simpl. rewrite O, Q. apply SAME; [reflexivity|].
+    unfold posted; simpl. rewrite Q, <- app_assoc. reflexivity.
+  - subst. simpl. rewrite O. apply SAME; reflexivity.
 Qed.
 
 Lemma remove_once n tr c :
@@ -1238,81 +1339,93 @@ Proof.
 Qed.
 
 (* ---- pushes ---- *)
-Lemma push_dead s c :
-  (forall id, aget c (f_netid (fr s)) = Some id -> aget id (f_live (fr s)) = None) ->
-  push_one s c = s.
-Proof.
-  intro H. unfold push_one. destruct (aget c (f_netid (fr s))) as [id|]; [|reflexivity].
-  rewrite (H id eq_refl). reflexivity.
-Qed.
-
 Lemma removed_dead n tr c id g :
   let s := run_from (init_with n) tr in
   f_reused (fr s) = false -> In (HRemove c id g) (hlog_of s) ->
-  exists id', aget c (f_netid (fr s)) = Some id' /\ aget id' (f_live (fr s)) = None.
+  target_of s c = None.
 Proof.
   simpl. intros NR J. destruct (inv_reach n tr) as (I & D). specialize (D NR).
   set (s := run_from (init_with n) tr) in *.
   assert (J' : In (HRemove c id g) (hview c (hlog_of s))).
   { unfold hview. apply filter_In. split; [exact J | simpl; apply Z.eqb_refl]. }
-  pose proof (hview_shape s c I D) as X.
+  pose proof (hview_shape s c I D) as X. unfold target_of.
   destruct (aget c (conns s)) as [k|].
   - destruct X as [(X & _)|(id' & tl & _ & _ & N & [(_ & _ & X)|(_ & L & _)])].
     + rewrite X in J'. contradiction.
     + rewrite X in J'. unfold life_open in J'. destruct J' as [J'|J']; [discriminate|].
       apply in_map_iff in J'. destruct J' as (m & E & _). discriminate.
-    + exists id'. split; assumption.
+    + rewrite N. exact L.
   - destruct X as (X & _). rewrite X in J'. contradiction.
 Qed.
 
-Lemma push_fr cs s : fr (fold_left push_one cs s) = fr s.
-Proof. destruct (push_all_quiet cs s) as (_ & F & _). exact F. Qed.
-
-Lemma push_after_remove n tr c id g cs1 cs2 :
+(* the owning service, in the middle of a PushMsg, reaches a target whose session was removed:
+   the push is dropped - the service moves on to the next target and NOTHING else changes *)
+Lemma push_after_remove n tr c id g rest :
   let s := run_from (init_with n) tr in
   f_reused (fr s) = false -> In (HRemove c id g) (hlog_of s) ->
-  step s (LPush (cs1 ++ c :: cs2)) = step s (LPush (cs1 ++ cs2)).
+  own s = c :: rest -> step s LOwner = s_own rest s.
 Proof.
-  simpl. intros NR J. destruct (removed_dead n tr c id g NR J) as (id' & N & L).
-  rewrite !fold_left_app. simpl. f_equal. apply push_dead.
-  rewrite push_fr. intros i E. congruence.
+  simpl. intros NR J O. pose proof (removed_dead n tr c id g NR J) as T. simpl in T.
+  unfold step_owner. rewrite O, T. reflexivity.
 Qed.
 
-(* pushes touch nothing but the connections they are addressed to *)
-Lemma push_conn_frame s c c' : c' <> c -> aget c' (conns (push_conn c s)) = aget c' (conns s).
+(* a push step touches one connection at most (queue and counters), never the service's
+   queue, the front or the clock *)
+Lemma owner_frame s c' :
+  (forall c rest, own s = c :: rest -> target_of s c <> Some c') ->
+  aget c' (conns (step s LOwner)) = aget c' (conns s).
 Proof.
-  intro N. unfold push_conn. destruct (aget c (conns s)) as [k|]; [|reflexivity].
-  destruct (c_status k); try destruct (c_latch k); unfold set_conn; simpl; apply aget_aset_other; exact N.
+  intro H. simpl. unfold step_owner. destruct (own s) as [|c rest] eqn:O; [reflexivity|].
+  destruct (target_of s c) as [c2|] eqn:T; [|reflexivity].
+  destruct (aget c2 (conns s)) as [k|]; [|reflexivity].
+  destruct (push_k k) as [k'|]; [|reflexivity].
+  simpl. apply aget_aset_other. intro E. subst c2. apply (H c rest eq_refl). exact T.
 Qed.
 
-Lemma push_frame cs : forall s c',
-  (forall c id, In c cs -> aget c (f_netid (fr s)) = Some id -> aget id (f_live (fr s)) <> Some c') ->
-  aget c' (conns (fold_left push_one cs s)) = aget c' (conns s).
-Proof.
-  induction cs as [|c cs IH]; intros s c' H; [reflexivity|]. simpl.
-  assert (F : fr (push_one s c) = fr s).
-  { destruct (push_one_quiet s c) as (_ & F & _). exact F. }
-  rewrite IH.
-  - unfold push_one. destruct (aget c (f_netid (fr s))) as [id|] eqn:N; [|reflexivity].
-    destruct (aget id (f_live (fr s))) as [c2|] eqn:L; [|reflexivity].
-    apply push_conn_frame. intro E. subst c2. apply (H c id (or_introl eq_refl) N). exact L.
-  - intros c0 id J. rewrite F. apply H. right. exact J.
-Qed.
-
-Lemma push_quiet_all s cs :
-  let s' := step s (LPush cs) in
+Lemma owner_quiet_all s :
+  let s' := step s LOwner in
   q s' = q s /\ dn s' = dn s /\ fr s' = fr s /\ now s' = now s.
 Proof.
-  simpl. destruct (push_all_quiet cs s) as (D & F & Q & _).
-  repeat split; try assumption.
-  revert s D F Q. induction cs as [|c cs IH]; intros s D F Q; [reflexivity|]. simpl.
-  assert (N : now (push_one s c) = now s).
-  { unfold push_one. destruct (aget c (f_netid (fr s))) as [id|]; [|reflexivity].
-    destruct (aget id (f_live (fr s))) as [c2|]; [|reflexivity].
-    unfold push_conn. destruct (aget c2 (conns s)) as [k2|]; [|reflexivity].
-    destruct (c_status k2); try destruct (c_latch k2); reflexivity. }
-  rewrite <- N. destruct (push_all_quiet cs (push_one s c)) as (D' & F' & Q' & _).
-  apply IH; assumption.
+  simpl. unfold step_owner. destruct (own s) as [|c rest]; [repeat split|].
+  destruct (target_of s c) as [c2|]; [|repeat split].
+  destruct (aget c2 (conns s)) as [k|]; [|repeat split].
+  destruct (push_k k) as [k'|]; repeat split.
+Qed.
+
+(* ---- senders and the closed queue ---- *)
+Lemma push_k_closed k : c_latch k = true -> exists k', push_k k = Some k' /\ c_sendq k' = c_sendq k /\
+                                                     c_npush k' = c_npush k + 1.
+Proof.
+  intro L. unfold push_k. rewrite L. destruct (c_status k); eexists; (split; [reflexivity|]); split; reflexivity.
+Qed.
+
+Lemma push_k_parked k : push_k k = None <->
+  (c_status k <> SClosed /\ c_latch k = false /\ chcap <= c_nq k).
+Proof.
+  unfold push_k. destruct (c_status k) eqn:St; try destruct (c_latch k) eqn:L;
+    try destruct (Z.ltb_spec (c_nq k) chcap);
+    split; try discriminate; try (intros (A & B & C); try congruence; try lia);
+    intros _; repeat split; try discriminate; lia.
+Qed.
+
+(* after Close() no sender stays parked on this connection's queue: the flood goroutine's
+   next step returns one push (dropped), a heartbeat send returns, the owning service moves on *)
+Lemma closed_never_blocks s c k :
+  aget c (conns s) = Some k -> c_latch k = true ->
+  (0 < c_pp k -> exists k', aget c (conns (step s (LStep c TP))) = Some k' /\
+                            c_pp k' = c_pp k - 1 /\ c_npush k' = c_npush k + 1 /\
+                            c_sendq k' = c_sendq k) /\
+  (c_hp k = HSend -> exists k', aget c (conns (step s (LStep c TH))) = Some k' /\
+                                c_hp k' = HLoop /\ c_sendq k' = c_sendq k) /\
+  (forall c0 rest, own s = c0 :: rest -> target_of s c0 = Some c -> own (step s LOwner) = rest).
+Proof.
+  intros H L. destruct (push_k_closed k L) as (k1 & P & Q1 & Q2). split; [|split].
+  - intro PP. simpl. rewrite H. unfold step_P.
+    destruct (Z.ltb_spec 0 (c_pp k)); [|lia]. rewrite P.
+    exists (k_pp (c_pp k - 1) k1). simpl. rewrite aget_aset_same. repeat split; assumption.
+  - intro HS. simpl. rewrite H. unfold step_H. rewrite HS, L.
+    exists (k_hp HLoop k). simpl. rewrite aget_aset_same. repeat split.
+  - intros c0 rest O T. simpl. unfold step_owner. rewrite O, T, H, P. reflexivity.
 Qed.
 
 (* ---- id allocation ---- *)
@@ -1385,10 +1498,11 @@ Lemma ainv_run n tr : forall s, no_setnext tr -> AInv n (fr s) -> AInv n (fr (ru
 Proof.
   induction tr as [|l tr IH]; intros s NS I; simpl; [exact I|].
   apply IH; [eapply no_setnext_cons; exact NS|].
-  destruct (step_class s l) as [(_ & F & _)|c E H|e r E Q|v E].
+  destruct (step_class s l) as [(_ & F & _)|(_ & _ & _ & F)|c _ (_ & _ & _ & _ & F)|e r E O Q|v E O].
   - rewrite F. exact I.
-  - subst. simpl. rewrite H. simpl. exact I.
-  - subst. simpl. rewrite Q. simpl. apply ainv_event. exact I.
+  - rewrite F. exact I.
+  - rewrite F. exact I.
+  - subst. simpl. rewrite O, Q. simpl. apply ainv_event. exact I.
   - exfalso. apply (NS v). left. exact E.
 Qed.
 
@@ -1462,18 +1576,44 @@ Qed.
 Lemma reach_steps ls : forall s, reachable s -> reachable (fold_left step ls s).
 Proof. apply reach_fold. intros s x. apply reach_step. Qed.
 
-Lemma reach_settle_n k : forall s, reachable s -> reachable (settle_n k s).
+Lemma reach_settle_conn n c : forall s, reachable s -> reachable (settle_conn_n n c s).
 Proof.
-  induction k as [|k IH]; intros s R; simpl; [exact R|].
-  apply IH. unfold settle_round. apply reach_fold; [|exact R].
-  intros s0 ck R0. apply reach_steps. exact R0.
+  induction n as [|n IH]; intros s R; cbn [settle_conn_n]; [exact R|].
+  destruct (aget c (conns s)) as [k|]; [|exact R].
+  apply IH. apply reach_steps. exact R.
 Qed.
 
-Lemma reach_settle s : reachable s -> reachable (settle s).
+Lemma reach_settle_H c s : reachable s -> reachable (settle_H c s).
 Proof.
-  intro R. unfold settle. apply reach_settle_n. unfold settle_H.
-  apply reach_fold; [|apply reach_settle_n; exact R].
-  intros s0 ck R0. destruct (c_latch (snd ck)); [apply reach_step|]; exact R0.
+  intro R. unfold settle_H. destruct (aget c (conns s)) as [k|]; [|exact R].
+  destruct (c_latch k); [repeat apply reach_step|]; exact R.
+Qed.
+
+Lemma reach_settle_one c s : reachable s -> reachable (settle_one c s).
+Proof.
+  intro R. unfold settle_one. destruct (aget c (conns s)) as [k|]; [|exact R].
+  apply reach_settle_H. apply reach_settle_conn. exact R.
+Qed.
+
+Lemma reach_iter n l : forall s, reachable s -> reachable (iter_label n l s).
+Proof.
+  induction n as [|n IH]; intros s R; cbn [iter_label]; [exact R|]. apply IH. apply reach_step. exact R.
+Qed.
+
+Lemma reach_settle_pass s : reachable s -> reachable (settle_pass s).
+Proof.
+  intro R. unfold settle_pass. apply reach_fold.
+  - intros s0 ck R0. apply reach_settle_one. exact R0.
+  - repeat apply reach_iter. exact R.
+Qed.
+
+Lemma reach_settle_all s : reachable s -> reachable (settle_all s).
+Proof. intro R. unfold settle_all. repeat apply reach_settle_pass. exact R. Qed.
+
+Lemma reach_settle_after c s0 s1 : reachable s1 -> reachable (settle_after c s0 s1).
+Proof.
+  intro R. unfold settle_after. destruct (own s0); [destruct (own s1)|];
+    [apply reach_settle_one | apply reach_settle_all | apply reach_settle_all]; exact R.
 Qed.
 
 Lemma reach_simple s o : reachable s -> reachable (exec_simple s o).
@@ -1494,11 +1634,13 @@ Qed.
 
 Lemma reach_op1 s o : reachable s -> reachable (exec_op1 s o).
 Proof.
-  intro R. unfold exec_op1. apply reach_settle.
-  destruct o; try (apply reach_step; exact R); try (apply reach_simple; exact R).
+  intro R. destruct o; cbn [exec_op1]; try exact R;
+    try (apply reach_settle_after; first [apply reach_step | apply reach_simple]; exact R);
+    try (apply reach_settle_all; first [apply reach_step | apply reach_simple]; exact R);
+    try (apply reach_step; exact R).
   - apply reach_drain. exact R.
-  - apply reach_fold; [|exact R]. intros s0 x. apply reach_simple.
-  - apply reach_fold; [|exact R]. intros s0 x. apply reach_simple.
+  - apply reach_settle_all. apply reach_fold; [|exact R]. intros s0 x. apply reach_simple.
+  - apply reach_settle_all. apply reach_fold; [|exact R]. intros s0 x. apply reach_simple.
 Qed.
 
 Lemma reach_op s o : reachable s -> reachable (exec_op s o).
@@ -1516,7 +1658,7 @@ Lemma exec_ops_alt_reachable ops : exists tr, exec_ops_alt ops = run tr.
 Proof.
   unfold exec_ops_alt. apply (reach_fold exec_op_alt ops); [|exists []; reflexivity].
   intros s o R. destruct o; try (apply reach_op; exact R).
-  cbn [exec_op_alt]. apply reach_settle. apply reach_fold; [|exact R]. intros s0 x. apply reach_simple.
+  cbn [exec_op_alt]. apply reach_settle_all. apply reach_fold; [|exact R]. intros s0 x. apply reach_simple.
 Qed.
 
 (* ---- the executable life-cycle check is the life-cycle predicate ---- *)
@@ -1577,4 +1719,287 @@ Proof.
   destruct (phase_open_inv c id v ph P) as [(E1 & E2)|[(E1 & E2)|(E1 & E2)]]; subst ph; try discriminate.
   - split; [apply subseqb_sound; exact S|]. left. unfold life_open. f_equal. exact E2.
   - split; [apply subseqb_sound; exact S|]. right. unfold life_open. simpl. f_equal. exact E2.
+Qed.
+
+(* ------------------------------------------------------------------ the bounded send queue *)
+Lemma qok_step s l :
+  (forall c k, aget c (conns s) = Some k -> qok k) ->
+  forall c k, aget c (conns (step s l)) = Some k -> qok k.
+Proof.
+  intros I c k' H'.
+  destruct (step_class s l) as [(_ & _ & c0 & new & _ & _ & C)|(C & _)|c0 _ (_ & C & _)|e r E O Q|v E O].
+  - specialize (C c). destruct (aget c (conns s)) as [k|] eqn:H; [|congruence].
+    destruct C as (k2 & H2 & U). rewrite H2 in H'. inv H'. apply (ku_q _ _ _ U). apply (I c k H).
+  - rewrite C in H'. apply (I c k' H').
+  - rewrite C in H'. destruct (Z.eqb c c0); [|apply (I c k' H')].
+    inv H'. unfold qok, conn0, chcap. simpl. lia.
+  - subst. simpl in H'. rewrite O, Q in H'. apply (I c k' H').
+  - subst. simpl in H'. rewrite O in H'. apply (I c k' H').
+Qed.
+
+Lemma chsend_bounded n tr c k :
+  aget c (conns (run_from (init_with n) tr)) = Some k ->
+  c_nq k = Z.of_nat (length (c_sendq k)) /\ 0 <= c_nq k <= chcap.
+Proof.
+  assert (G : forall tr s, (forall c k, aget c (conns s) = Some k -> qok k) ->
+                           forall c k, aget c (conns (run_from s tr)) = Some k -> qok k).
+  { intro tr0. induction tr0 as [|l tr0 IH]; intros s I; simpl; [exact I|].
+    apply IH. apply qok_step. exact I. }
+  intro H. destruct (G tr (init_with n)) with (c := c) (k := k) as (Q1 & Q2); [|exact H|].
+  - intros c0 k0 X. discriminate.
+  - split; [exact Q1 | lia].
+Qed.
+
+(* ------------------------------------------------------------------ no sender left behind *)
+Lemma end_no_sender s c k :
+  aget c (conns s) = Some k -> c_latch k = true -> stuck s c ->
+  c_pp k <= 0 /\ c_hp k <> HSend /\
+  (forall c0 rest, own s = c0 :: rest -> target_of s c0 = Some c -> step s LOwner <> s).
+Proof.
+  intros H L St. destruct (closed_never_blocks s c k H L) as (P1 & P2 & P3).
+  split; [|split].
+  - destruct (Z.ltb_spec 0 (c_pp k)) as [PP|PP]; [exfalso | lia].
+    destruct (P1 PP) as (k' & A & B & _). rewrite (St TP), H in A. inv A. lia.
+  - intro HS. destruct (P2 HS) as (k' & A & B & _). rewrite (St TH), H in A. inv A. congruence.
+  - intros c0 rest O T E. pose proof (P3 c0 rest O T) as X. rewrite E, O in X.
+    apply (f_equal (@length Z)) in X. simpl in X. lia.
+Qed.
+
+(* ------------------------------------------------------------------ the acceptor *)
+Lemma NoDup_snoc (l : list Z) x : NoDup l -> ~ In x l -> NoDup (l ++ [x]).
+Proof.
+  intros N I. induction l as [|y l IH]; simpl; [constructor; [tauto | constructor]|].
+  inv N. constructor.
+  - intro J. apply in_app_or in J. destruct J as [J|[J|[]]]; [contradiction | subst; apply I; left; reflexivity].
+  - apply IH; [assumption | intro J; apply I; right; exact J].
+Qed.
+
+Definition pf (s : st) := (backlog s, ahand s, cch s, shand s, dialed s).
+
+Lemma acc_same s s' :
+  acc_ok s -> pf s' = pf s ->
+  (forall c, aget c (conns s) = None -> In c (pipeline s) -> aget c (conns s') = None) ->
+  (forall c, aget c (conns s) <> None -> aget c (conns s') <> None) ->
+  acc_ok s'.
+Proof.
+  intros A P N K. unfold pf in P. inv P.
+  assert (PL : pipeline s' = pipeline s) by (unfold pipeline; congruence).
+  constructor.
+  - rewrite PL. apply (acc_nodup s A).
+  - intros c J. rewrite PL in J. apply N; [apply (acc_fresh s A c J) | exact J].
+  - rewrite H2. apply (acc_cap s A).
+  - intros c J. rewrite H4 in J. destruct (acc_all s A c J) as [X|X]; [left; rewrite PL; exact X | right; apply K; exact X].
+  - intros c J. rewrite PL in J. rewrite H4. apply (acc_dialed s A c J).
+Qed.
+
+(* labels that are not the acceptor's own leave the pipeline alone *)
+Lemma pf_conn_eff s s' c k k' new : conn_eff s s' c k k' new -> pf s' = pf s.
+Proof.
+  intros (_ & _ & _ & _ & _ & _ & A & _). unfold accf in A. unfold pf. inv A. reflexivity.
+Qed.
+
+Lemma pf_step s l :
+  match l with LDial _ | LStepA | LStepS => True | _ => pf (step s l) = pf s end.
+Proof.
+  destruct l as [c|b| | |c|c p|c|c|c|d|c t|c n|c|c|cs| | |v]; try exact I; simpl.
+  - reflexivity.
+  - destruct (zmem c (dialed s)); [reflexivity|]. unfold connect. destruct (aget c (conns s)); reflexivity.
+  - destruct (aget c (conns s)) as [k|]; [|reflexivity]. destruct (c_eof k); reflexivity.
+  - destruct (aget c (conns s)); reflexivity.
+  - destruct (aget c (conns s)); reflexivity.
+  - destruct (aget c (conns s)); reflexivity.
+  - reflexivity.
+  - destruct (aget c (conns s)) as [k|] eqn:H; [|reflexivity]. destruct t.
+    + destruct (step_R_eff s c k H) as [E|(k' & new & E)]; [rewrite E; reflexivity | eapply pf_conn_eff; exact E].
+    + destruct (step_W_eff s c k H) as [E|(k' & new & E)]; [rewrite E; reflexivity | eapply pf_conn_eff; exact E].
+    + destruct (step_H_eff s c k H) as [E|(k' & new & E)]; [rewrite E; reflexivity | eapply pf_conn_eff; exact E].
+    + destruct (step_P_eff s c k H) as [E|(k' & new & E)]; [rewrite E; reflexivity | eapply pf_conn_eff; exact E].
+  - destruct (aget c (conns s)) as [k|]; [|reflexivity]. destruct (c_pp k =? 0); reflexivity.
+  - destruct (own s); [|reflexivity]. destruct (target_of s c) as [c'|]; [|reflexivity].
+    destruct (aget c' (conns s)) as [k'|] eqn:H; [|reflexivity].
+    destruct (eff_ext_close s c' k' H) as (k2 & new & E). eapply pf_conn_eff. exact E.
+  - destruct (aget c (conns s)) as [k|] eqn:H; [|reflexivity].
+    destruct (eff_ext_close s c k H) as (k2 & new & E). eapply pf_conn_eff. exact E.
+  - destruct (own s); reflexivity.
+  - unfold step_owner. destruct (own s) as [|c rest]; [reflexivity|].
+    destruct (target_of s c) as [c'|]; [|reflexivity].
+    destruct (aget c' (conns s)) as [k|]; [|reflexivity]. destruct (push_k k); reflexivity.
+  - destruct (own s); [|reflexivity]. destruct (q s); reflexivity.
+  - destruct (own s); reflexivity.
+Qed.
+
+Lemma in_pipeline s c :
+  In c (pipeline s) <-> shand s = Some c \/ In c (cch s) \/ ahand s = Some c \/ In c (backlog s).
+Proof.
+  unfold pipeline, optl. rewrite !in_app_iff.
+  destruct (shand s) as [x|]; destruct (ahand s) as [y|]; simpl; intuition (try congruence; try discriminate).
+Qed.
+
+Lemma acc_repipe s s' :
+  acc_ok s -> pipeline s' = pipeline s -> conns s' = conns s -> dialed s' = dialed s ->
+  (length (cch s') <= cchcap)%nat -> acc_ok s'.
+Proof.
+  intros A PL C D L. constructor; rewrite ?PL, ?C, ?D; try apply A. exact L.
+Qed.
+
+Lemma acc_step s l : acc_ok s -> acc_ok (step s l).
+Proof.
+  intro A.
+  assert (OTHER : pf (step s l) = pf s ->
+                  (forall c0, l = LConnect c0 \/ l = LStepS -> l = LConnect c0 /\ zmem c0 (dialed s) = false) ->
+                  acc_ok (step s l)).
+  { intros P NC. apply (acc_same s); [exact A | exact P | |].
+    - intros c N J.
+      destruct (step_class s l) as [(_ & _ & c0 & new & _ & _ & C)|(C & _)|c0 LL (_ & C & _)|e r E O Q|v E O].
+      + specialize (C c). rewrite N in C. exact C.
+      + rewrite C. exact N.
+      + rewrite C. destruct (Z.eqb_spec c c0) as [E|_]; [|exact N]. subst c0.
+        destruct (NC c LL) as (_ & Z). exfalso.
+        apply (acc_dialed s A) in J. apply zmem_In in J. congruence.
+      + subst. simpl. rewrite O, Q. exact N.
+      + subst. simpl. rewrite O. exact N.
+    - intros c N.
+      destruct (step_class s l) as [(_ & _ & c0 & new & _ & _ & C)|(C & _)|c0 LL (_ & C & _)|e r E O Q|v E O].
+      + specialize (C c). destruct (aget c (conns s)); [|congruence].
+        destruct C as (k' & H' & _). congruence.
+      + rewrite C. exact N.
+      + rewrite C. destruct (Z.eqb c c0); [discriminate | exact N].
+      + subst. simpl. rewrite O, Q. exact N.
+      + subst. simpl. rewrite O. exact N. }
+  pose proof (pf_step s l) as PF.
+  destruct l as [c|b| | |c|c p|c|c|c|d|c t|c n|c|c|cs| | |v];
+    try (apply OTHER; [exact PF | intros c0 [X|X]; discriminate]).
+  - (* LDial *) simpl. unfold known. destruct (zmem c (dialed s)) eqn:Dl; [exact A|]. simpl.
+    destruct (aget c (conns s)) eqn:H; [exact A|].
+    assert (NI : ~ In c (pipeline s)).
+    { intro J. apply (acc_dialed s A) in J. apply zmem_In in J. congruence. }
+    assert (PL : pipeline (s_dialed (dialed s ++ [c]) (s_backlog (backlog s ++ [c]) s)) = pipeline s ++ [c]).
+    { unfold pipeline. simpl. rewrite !app_assoc. reflexivity. }
+    constructor; simpl.
+    + rewrite PL. apply NoDup_snoc; [apply (acc_nodup s A) | exact NI].
+    + intros c0 J. rewrite PL in J. apply in_app_or in J.
+      destruct J as [J|[J|[]]]; [apply (acc_fresh s A c0 J) | subst; exact H].
+    + apply (acc_cap s A).
+    + intros c0 J. rewrite PL. apply in_app_or in J. destruct J as [J|[J|[]]].
+      * destruct (acc_all s A c0 J) as [X|X]; [left; apply in_or_app; left; exact X | right; exact X].
+      * subst. left. apply in_or_app. right. left. reflexivity.
+    + intros c0 J. rewrite PL in J. apply in_app_or in J. apply in_or_app.
+      destruct J as [J|J]; [left; apply (acc_dialed s A c0 J) | right; exact J].
+  - (* LStepA *) simpl. destruct (ahand s) as [c|] eqn:Ah.
+    + destruct (Nat.ltb_spec (length (cch s)) cchcap) as [Lt|Ge]; [|exact A].
+      assert (PL : pipeline (s_ahand None (s_cch (cch s ++ [c]) s)) = pipeline s).
+      { unfold pipeline. simpl. rewrite Ah. simpl. rewrite <- !app_assoc. reflexivity. }
+      apply (acc_repipe s); [exact A | exact PL | reflexivity | reflexivity|].
+      simpl. rewrite app_length. simpl. unfold cchcap in *. lia.
+    + destruct (backlog s) as [|c r] eqn:Bl; [exact A|].
+      assert (PL : pipeline (s_ahand (Some c) (s_backlog r s)) = pipeline s).
+      { unfold pipeline. simpl. rewrite Ah, Bl. reflexivity. }
+      apply (acc_repipe s); [exact A | exact PL | reflexivity | reflexivity | apply (acc_cap s A)].
+  - (* LStepS *) simpl. destruct (shand s) as [c|] eqn:Sh.
+    + destruct (gate s); [exact A|].
+      assert (PL : pipeline s = c :: pipeline (s_shand None (connect c s))).
+      { unfold pipeline, connect. simpl. rewrite Sh. destruct (aget c (conns s)); reflexivity. }
+      assert (Hc : aget c (conns s) = None).
+      { apply (acc_fresh s A). rewrite PL. left. reflexivity. }
+      pose proof (acc_nodup s A) as ND. rewrite PL in ND. inv ND.
+      assert (CG : forall c', aget c' (conns (s_shand None (connect c s))) =
+                              if Z.eqb c' c then Some conn0 else aget c' (conns s)).
+      { intro c'. unfold connect. rewrite Hc. simpl. apply aget_aset. }
+      assert (DL : dialed (s_shand None (connect c s)) = dialed s).
+      { unfold connect. rewrite Hc. reflexivity. }
+      assert (CC : cch (s_shand None (connect c s)) = cch s).
+      { unfold connect. rewrite Hc. reflexivity. }
+      constructor.
+      * assumption.
+      * intros c0 J. rewrite CG. destruct (Z.eqb_spec c0 c) as [E|_]; [subst; contradiction|].
+        apply (acc_fresh s A). rewrite PL. right. exact J.
+      * rewrite CC. apply (acc_cap s A).
+      * intros c0 J. rewrite DL in J. rewrite CG. destruct (Z.eqb_spec c0 c) as [E|N]; [right; discriminate|].
+        destruct (acc_all s A c0 J) as [X|X]; [|right; exact X].
+        rewrite PL in X. destruct X as [X|X]; [congruence | left; exact X].
+      * intros c0 J. rewrite DL. apply (acc_dialed s A). rewrite PL. right. exact J.
+    + destruct (cch s) as [|c r] eqn:Cc; [exact A|].
+      assert (PL : pipeline (s_shand (Some c) (s_cch r s)) = pipeline s).
+      { unfold pipeline. simpl. rewrite Sh, Cc. reflexivity. }
+      apply (acc_repipe s); [exact A | exact PL | reflexivity | reflexivity|].
+      pose proof (acc_cap s A) as X. rewrite Cc in X. simpl in *. unfold cchcap in *. lia.
+  - (* LConnect *) destruct (zmem c (dialed s)) eqn:Dl.
+    + simpl. rewrite Dl. exact A.
+    + apply OTHER; [exact PF|]. intros c0 [X|X]; [|discriminate]. inv X. split; [reflexivity | exact Dl].
+Qed.
+
+Lemma acc_reach n tr : acc_ok (run_from (init_with n) tr).
+Proof.
+  assert (G : forall tr s, acc_ok s -> acc_ok (run_from s tr)).
+  { intro tr0. induction tr0 as [|l tr0 IH]; intros s A; simpl; [exact A | apply IH, acc_step, A]. }
+  apply G. constructor; simpl; try (intros; contradiction); try constructor.
+  unfold cchcap. lia.
+Qed.
+
+Lemma count_add_one c tl : ~ In (EAdd c) tl -> count_add c (EAdd c :: tl) = 1%nat.
+Proof.
+  intro NI. unfold count_add. simpl. rewrite Z.eqb_refl. simpl. f_equal.
+  induction tl as [|e tl IH]; [reflexivity|]. simpl.
+  destruct e as [c'|c' m|c']; simpl; try (apply IH; intro J; apply NI; right; exact J).
+  destruct (Z.eqb_spec c c') as [E|N].
+  - subst. exfalso. apply NI. left. reflexivity.
+  - apply IH. intro J. apply NI. right. exact J.
+Qed.
+
+Lemma count_add_evs c l : count_add c (evs_of c l) = count_add c l.
+Proof.
+  unfold count_add, evs_of. induction l as [|e l IH]; [reflexivity|]. simpl.
+  destruct e as [c'|c' m|c']; simpl; destruct (Z.eqb c c') eqn:E; simpl; rewrite ?E; simpl; rewrite IH; reflexivity.
+Qed.
+
+(* when the service has caught up and neither loop can move, every accepted connection has
+   become a session, with exactly one Add posted for it *)
+Lemma acceptor_quiescent_s s :
+  acc_ok s -> CInv s ->
+  gate s = false -> step s LStepA = s -> step s LStepS = s ->
+  pipeline s = [] /\
+  forall c, In c (dialed s) -> conn_of s c <> None /\ count_add c (posted s) = 1%nat.
+Proof.
+  intros A I G SA SS.
+  assert (S1 : shand s = None).
+  { destruct (shand s) as [c|] eqn:Sh; [exfalso | reflexivity].
+    cbn [step] in SS. rewrite Sh, G in SS.
+    apply (f_equal shand) in SS. simpl in SS. rewrite Sh in SS. discriminate. }
+  assert (S2 : cch s = []).
+  { destruct (cch s) as [|c r] eqn:Cc; [reflexivity | exfalso].
+    cbn [step] in SS. rewrite S1, Cc in SS. apply (f_equal shand) in SS. simpl in SS. congruence. }
+  assert (S3 : ahand s = None).
+  { destruct (ahand s) as [c|] eqn:Ah; [exfalso | reflexivity].
+    cbn [step] in SA. rewrite Ah, S2 in SA. simpl in SA.
+    apply (f_equal ahand) in SA. simpl in SA. congruence. }
+  assert (S4 : backlog s = []).
+  { destruct (backlog s) as [|c r] eqn:Bl; [reflexivity | exfalso].
+    cbn [step] in SA. rewrite S3, Bl in SA. apply (f_equal ahand) in SA. simpl in SA. congruence. }
+  assert (PL : pipeline s = []) by (unfold pipeline; rewrite S1, S2, S3, S4; reflexivity).
+  split; [exact PL|]. intros c J.
+  destruct (acc_all s A c J) as [X|X]; [rewrite PL in X; contradiction|].
+  split; [exact X|].
+  pose proof (iC2 s I c) as Y.
+  destruct (aget c (conns s)); [|congruence].
+  destruct Y as (tl & E & NI). rewrite <- count_add_evs, E. apply count_add_one. exact NI.
+Qed.
+
+Lemma acceptor_quiescent n tr :
+  let s := run_from (init_with n) tr in
+  gate s = false -> step s LStepA = s -> step s LStepS = s ->
+  pipeline s = [] /\
+  forall c, In c (dialed s) -> conn_of s c <> None /\ count_add c (posted s) = 1%nat.
+Proof.
+  simpl. apply acceptor_quiescent_s; [apply acc_reach | apply (proj1 (inv_reach n tr))].
+Qed.
+
+Lemma end_releases_senders n tr c k :
+  let s := run_from (init_with n) tr in
+  conn_of s c = Some k -> c_cause k = true -> stuck s c ->
+  c_latch k = true /\ c_pp k <= 0 /\ c_hp k <> HSend /\
+  (forall c0 rest, own s = c0 :: rest -> target_of s c0 = Some c -> step s LOwner <> s).
+Proof.
+  simpl. intros H Ca St. destruct (inv_reach n tr) as (I & _).
+  pose proof (stuck_latch _ c k H (iB _ I c k H) Ca St) as L.
+  split; [exact L|]. apply end_no_sender; assumption.
 Qed.
